@@ -22,6 +22,8 @@ VARIANTS = {
     'cov':     ('clang', ['-O1', '-fsanitize-coverage=trace-pc-guard,trace-loads,trace-stores', '-fno-builtin'], 'idn2', []),
     'covbb':   ('clang', ['-O1', '-fsanitize-coverage=trace-pc-guard', '-fno-builtin'], 'idn2', []),
     'tsan':    ('clang', ['-O1', '-g', '-fsanitize=thread'], 'idn2', []),
+    'tsan-idn':    ('clang', ['-O1', '-g', '-fsanitize=thread'], 'idn', []),
+    'tsan-idnkit': ('clang', ['-O1', '-g', '-fsanitize=thread'], 'idnkit', []),
     'msan':    ('clang', ['-O1', '-g', '-fsanitize=memory', '-fno-omit-frame-pointer'], 'idn2', []),
     'extra':   ('gcc',   ['-O2'], 'idn2', ['-DEAV_EXTRA']),
     'idn':     ('gcc',   ['-O2'], 'idn', []),
